@@ -778,9 +778,11 @@ static void crash_explore(Ctx& c, const J& crash) {
 }
 
 // ---------------------------------------------------------------- run a plan
+static sem_t g_started;
 static void* task_main(void* arg) {
     Task* t = (Task*)arg;
     tl_task = t;
+    sem_post(&g_started);      // threads are started strictly one after the other: allocator arenas and sanitizer thread ids must not depend on real timing
     while (sem_wait(&t->sem) != 0) {}
     std::map<std::string, std::string> saved;
     Ctx c; c.t = t; c.P = &proc_of(t->pid); c.saved = &saved;
@@ -807,7 +809,7 @@ void exec_plan(const J& plan, int outfd) {
     R.rng.seed((uint64_t)plan["seed"].num() ^ 0x5EED5EED5EEDull);
     rng_reseed((uint64_t)plan["seed"].num() * 0x9E3779B97F4A7C15ull + 12345);
     // config + token dir
-    std::string conf = "directories.tokendir = /sim/tokens\n";
+    std::string conf = "directories.tokendir = " + kn["tokendir"].str("/sim/tokens") + "\n";   // a path outside /sim/ = real backing (pass-through)
     const J& cf = kn["conf"];
     bool have_backend = false, have_log = false, have_mech = false;
     for (auto& kv : cf.o) { if (kv.first == "__raw") continue; conf += kv.first + " = " + kv.second.str() + "\n"; if (kv.first == "objectstore.backend") have_backend = true; if (kv.first == "log.level") have_log = true; if (kv.first == "slots.mechanisms") have_mech = true; }
@@ -847,7 +849,8 @@ void exec_plan(const J& plan, int outfd) {
     install_death_handlers(kn["watchdog_s"].num(120));
     R.sched_on = true;
     pthread_attr_t at; pthread_attr_init(&at); pthread_attr_setstacksize(&at, 8 << 20);
-    for (auto* t : R.tasks) pthread_create(&t->th, &at, task_main, t);
+    sem_init(&g_started, 0, 0);
+    for (auto* t : R.tasks) { pthread_create(&t->th, &at, task_main, t); while (sem_wait(&g_started) != 0) {} }
     if (!R.tasks.empty()) { R.cur = 0; sem_post(&R.tasks[0]->sem); while (sem_wait(&R.done_sem) != 0) {} }
     R.sched_on = false;
     if (kn["final_disk"].boolean(false)) { J ev = J::obj(); ev.set("e", "final_disk"); ev.set("tree", g_fs.dump_tree(g_fs.root, true)); hist_event(ev); }
